@@ -5,7 +5,11 @@ without strong couplings, nested) of polynomial harness disciplines (`harness/c0
 built with the real classes; histories of 1-4 `add_differentiated_inputs/outputs` + `linearize`
 calls are replayed on them and on the Lean model (Driver/C09.lean, same protocol line); the blocks
 returned after every call and the (inputs, outputs) every leaf discipline was asked to
-differentiate are compared.
+differentiate are compared.  Histories also contain plain executions and come back to points visited
+earlier (with one-entry, no or all-entries caches on every object); for flat chains a second protocol
+line (`eval`) makes the driver run the evaluation-state model (EChain.exec/lin, mdaExec/mdaLin) and
+the output data of every execution and the data every leaf holds when it computes its Jacobian are
+compared.
 
 Oracle: forward-mode automatic differentiation with dual numbers over `Fraction`, written from the
 *definition of the function the process computes* (sequential composition, independent parallel
@@ -37,7 +41,11 @@ TRUSTED_EXTRA = (
     "C09: list-of-lists Rat matrices of the driver stand for the matrix blocks of the theorems "
     "(Lemmas/C09Mat proves the correspondence for well-shaped lists)",
     "C09: leaf disciplines return their exact partial derivatives (harness PolyDisc); "
-    "Discipline.linearize's cache/early-return paths are exercised, not modelled",
+    "Discipline.linearize's Jacobian-cache/early-return paths are exercised, not modelled",
+    "C09: the evaluation-state model (EChain.exec/lin, mdaExec/mdaLin: caches, data held by every discipline, "
+    "linearization points) is run by the driver on FLAT chains only (`eval` lines); for nested processes the "
+    "theorem linearization_points_history is applied level by level (a chain is a Local discipline: "
+    "EChain.asDisc_local) and the driver uses the partial derivatives at the current point",
 )
 
 # =========================================================================== process trees
@@ -576,7 +584,7 @@ def gen_case(rng: common.Rng, scope: bool = True, top: str | None = None) -> dic
             if req["call"] == "adapter" and (req["all"] or set(ins) & set(outs) or any(l["spec"]["kind"] == "operator" for l in leaves(proc))):
                 req["call"] = "point"  # DisciplineAdapter concatenates arrays: no operators, explicit names
             case["reqs"].append(req)
-        if len({json.dumps(q["point"], sort_keys=True) for q in case["reqs"]}) < len(case["reqs"]) and proc["t"] != "L" and rng.chance(0.4):
+        if len({json.dumps(q["point"], sort_keys=True) for q in case["reqs"]}) < len(case["reqs"]) and proc["t"] != "L" and rng.chance(0.6):
             proc["cache"] = "MemoryFullCache"  # histories coming back to a point: keep all the evaluations
         if exact_ok(case):
             return case
@@ -1564,7 +1572,8 @@ def _lin_leaf(name, ins, outs, coefs):
 
 def enumerate_small():
     """Exhaustive small scope: every in-scope chain of 3 scalar linear disciplines over the inputs {x, w}
-    (each reads 1-2 available variables and writes a fresh variable or re-writes an unread one), and every
+    (each reads 1-2 available variables and writes a fresh variable, re-writes an unread one or updates one
+    of its own inputs in place), and every
     parallel/additive chain of 2 such disciplines writing among {s, t}; distinct prime coefficients."""
     import itertools
 
@@ -1583,10 +1592,10 @@ def enumerate_small():
 
     for in0 in subsets(["x", "w"]):
         for in1 in subsets(["x", "w", "o0"]):
-            for out1 in ["o1"] + (["o0"] if "o0" not in in1 else []):
+            for out1 in ["o1", "o0"]:  # o0 in in1: D1 updates o0 in place
                 avail2 = ["x", "w"] + sorted({"o0", out1})
                 for in2 in subsets(avail2):
-                    read = set(in0) | set(in1) | set(in2)
+                    read = set(in0) | set(in1)  # D2 may overwrite its own inputs, not what D0/D1 read
                     for out2 in ["o2"] + [v for v in sorted({"o0", out1}) if v not in read]:
                         leaves_ = []
                         k = 0
@@ -1636,6 +1645,7 @@ def mda_adjoint_run(case, variant):
     bad: list[tuple[str, str]] = []
     with contextlib.redirect_stderr(io.StringIO()):
         obj = MDAChain([made[id(k)] for k in proc["kids"]], **variant)
+        _set_cache(obj, proc.get("cache", "SimpleCache"))
     cum_in: list[str] = []
     cum_out: list[str] = []
     for k, req in enumerate(case["reqs"]):
@@ -1651,6 +1661,8 @@ def mda_adjoint_run(case, variant):
         point = {n: np.array([float(Fraction(v)) for v in vals]) for n, vals in req["point"].items()}
         try:
             with contextlib.redirect_stderr(io.StringIO()):
+                for q in req.get("pre", []):
+                    obj.execute({n: np.array([float(Fraction(v)) for v in vals]) for n, vals in q.items()})
                 if req["in"]:
                     obj.add_differentiated_inputs(list(req["in"]))
                 if req["out"]:
@@ -1694,6 +1706,8 @@ def check_mda_adjoint(res: Result, rng, n: int) -> None:
             variant = variants[i % len(variants)]
         res.evaluations += 1
         res.count("mdachain-adjoint(rounded stream, oracle only)")
+        if "revisited-point" in history_tags(case) and case["proc"].get("cache") == "MemoryFullCache":
+            res.count("mdachain-adjoint:revisited-point+MemoryFullCache")
         res.nontrivial("mda:" + case_line(case)[:2000])
         for key, msg in mda_adjoint_run(case, variant):
             res.count("oracle-fail:" + key)
@@ -1723,14 +1737,18 @@ def run(ctx) -> Result:
     res.rule = (
         "generated process trees (MDOChain/MDOParallelChain/MDOAdditiveChain/MDAChain, nested up to depth 2, 1-8 "
         "polynomial leaf disciplines with dense/sparse/operator Jacobians, variables of size 1-3, diamonds, fan-in/out, "
-        "dead writes and inputs that are also outputs) x histories of 1-4 add_differentiated_*/linearize calls "
-        "(subsets, compute_all_jacobians, changing input points); a case is non-trivial when the process has >= 2 "
-        "leaf disciplines; distinct by protocol line; + exhaustive small scope: every in-scope chain of 3 scalar "
-        "linear disciplines over 2 inputs (fresh or re-written outputs) and every parallel/additive pair"
+        "dead writes and disciplines updating 1-3 of their own inputs in place with cross-dependence; caches "
+        "SimpleCache/none/MemoryFullCache on every leaf and process) x histories of 1-4 add_differentiated_*/linearize "
+        "calls (subsets, compute_all_jacobians, new / same / REVISITED input points, plain execute() calls between "
+        "the requests); a case is non-trivial when the process has >= 2 leaf disciplines; distinct by protocol line; "
+        "+ exhaustive small scope: every in-scope chain of 3 scalar linear disciplines over 2 inputs (fresh, "
+        "re-written or updated-in-place outputs) and every parallel/additive pair"
     )
     res.assumptions = [
-        "in-scope = name-based dependency graph acyclic and chains listed in a valid (topological) order; "
-        "other layouts are probed against the model only",
+        "in-scope = chains listed in a valid order (no discipline computes a variable that a STRICTLY earlier one "
+        "reads; a discipline or sub-process may overwrite its own inputs: the data flow stays acyclic); an MDAChain "
+        "has no input that is also an output (that is a self-coupling solved by an MDA, C07); other layouts are "
+        "probed against the model only",
         "exact stream: every float intermediate is exactly representable (checked per case: term-by-term "
         "evaluation and the bound prod(1+sum|entries|) * 2^K < 2^52 on any accumulation order)",
         "MDAChain without strong couplings: chain_linearize=True on the exact stream (model + oracle); the default "
@@ -1749,7 +1767,7 @@ def run(ctx) -> Result:
         batch = [gen_case(rng, True) for _ in range(min(60, n - done))]
         check_cases(res, batch, True, rng)
         done += len(batch)
-    if True:  # exhaustive small scope (585 cases, ~15 s): both tiers
+    if True:  # exhaustive small scope (~800 cases, ~20 s): both tiers
         small = enumerate_small()
         for i in range(0, len(small), 100):
             check_cases(res, small[i : i + 100], True, rng)
